@@ -302,29 +302,50 @@ def checkSymlinks (fl : XFlags) (linkname : Bool) (path : List Nat) : Prog St :=
 
 /-! ### create_dir / create_parent_dir -/
 
-/-- Offset of the last '/' (`strrchr(path, '/')`). -/
-def lastSlash (p : List Nat) : Option Nat :=
-  let idx := (p.reverse.findIdx? (· == SLASH))
-  idx.map fun i => p.length - 1 - i
+/-- `strrchr(path, '/')`: the part before the last '/' (when there is one) and the part after it. -/
+def dirBase : List Nat → Option (List Nat) × List Nat
+  | [] => (none, [])
+  | c :: r => match dirBase r with
+    | (some d, b) => (some (c :: d), b)
+    | (none, b) => if c = SLASH then (some [], b) else (none, c :: b)
 
-theorem lastSlash_lt (p : List Nat) (i : Nat) (h : lastSlash p = some i) : i < p.length := by
-  unfold lastSlash at h
-  cases hf : p.reverse.findIdx? (· == SLASH) with
-  | none => simp [hf] at h
-  | some j =>
-    simp [hf] at h
-    have := List.findIdx?_eq_some_iff_findIdx_eq.mp hf
-    have hj : j < p.reverse.length := this.1
-    simp at hj
-    omega
+theorem dirBase_eq : ∀ (p : List Nat), match dirBase p with
+    | (some d, b) => p = d ++ SLASH :: b ∧ (∀ x ∈ b, x ≠ SLASH)
+    | (none, b) => p = b ∧ (∀ x ∈ b, x ≠ SLASH) := by
+  intro p
+  induction p with
+  | nil => simp [dirBase]
+  | cons c r ih =>
+    unfold dirBase
+    cases h : dirBase r with
+    | mk o b =>
+      rw [h] at ih
+      cases o with
+      | some d => simp only at ih ⊢; exact ⟨by rw [ih.1]; rfl, ih.2⟩
+      | none =>
+        simp only at ih ⊢
+        by_cases hc : c = SLASH
+        · simp only [hc, if_true]; exact ⟨by rw [ih.1]; rfl, ih.2⟩
+        · simp only [hc, if_false]
+          refine ⟨by rw [ih.1], ?_⟩
+          intro x hx
+          simp at hx
+          rcases hx with rfl | hx
+          · exact hc
+          · exact ih.2 x hx
+
+theorem dirBase_lt (p d b : List Nat) (h : dirBase p = (some d, b)) : d.length < p.length := by
+  have := dirBase_eq p
+  rw [h] at this
+  rw [this.1]; simp
 
 /-- `create_dir(a, path)`.  Returns the status and the fix-ups it queued. -/
 def createDir (fl : XFlags) (umask : Nat) (path : List Nat) : Prog (St × List Fixup) :=
-  let slash := lastSlash path
-  let base := match slash with | none => path | some i => path.drop (i + 1)
+  match _h : dirBase path with
+  | (slash, base) =>
   if base = [] ∨ base = [DOT] ∨ base = [DOT, DOT] then
-    match _h : slash with
-    | some i => createDir fl umask (path.take i)
+    match _h2 : slash with
+    | some d => createDir fl umask d
     | none => pure (.ok, [])
   else do
     let r ← sys (.stat path)           -- "Yes, this should be stat() and not lstat()."
@@ -340,8 +361,8 @@ def createDir (fl : XFlags) (umask : Nat) (path : List Nat) : Prog (St × List F
           | _ => pure (.ok, [])
       | .err e =>
         if e ≠ .ENOENT ∧ e ≠ .ENOTDIR then pure (.failed, [])
-        else match _h : slash with
-          | some i => createDir fl umask (path.take i)
+        else match _h2 : slash with
+          | some d => createDir fl umask d
           | none => pure (.ok, [])
       | _ => pure (.failed, [])
     let (s, fx) ← pre
@@ -365,15 +386,14 @@ def createDir (fl : XFlags) (umask : Nat) (path : List Nat) : Prog (St × List F
 termination_by path.length
 decreasing_by
   all_goals
-    have := lastSlash_lt path i _h
-    simp only [List.length_take]
-    omega
+    subst _h2
+    exact dirBase_lt path _ _ _h
 
 /-- `create_parent_dir(a, path)` -/
 def createParentDir (fl : XFlags) (umask : Nat) (path : List Nat) : Prog (St × List Fixup) :=
-  match lastSlash path with
+  match (dirBase path).1 with
   | none => pure (.ok, [])
-  | some i => createDir fl umask (path.take i)
+  | some d => createDir fl umask d
 
 /-! ### per-entry state of the writer -/
 
